@@ -222,7 +222,8 @@ Definition suffix_tok_ok (t : token_type) : bool :=
   negb (is_suffix_tok t) ||
   (let '(d, sec) := get_definition t in
    definition_eqb d (ref_def t) && secondary_eqb sec S_UnarySuffix &&
-   negb (definition_eqb d D_Drop) && negb (definition_eqb d D_Identifier) && op_def_ok d false && plain_def d).
+   negb (definition_eqb d D_Drop) && negb (definition_eqb d D_Identifier) && op_def_ok d false && plain_def d &&
+   match ref_rank d with Some p => N.ltb p ROUND_LIMIT | None => false end).
 
 Lemma suffix_toks_ok : forallb suffix_tok_ok all_token_type = true.
 Proof. vm_compute. reflexivity. Qed.
@@ -234,12 +235,13 @@ Lemma suffix_tok_facts t : is_suffix_tok t = true ->
   get_definition t = (ref_def t, S_UnarySuffix) /\
   definition_eqb (ref_def t) D_Drop = false /\ definition_eqb (ref_def t) D_Identifier = false /\
   plain_def (ref_def t) = true /\
-  exists my p, op_facts (ref_def t) false my p.
+  exists my p, op_facts (ref_def t) false my p /\ (p < ROUND_LIMIT)%N.
 Proof.
   intros Hs. pose proof suffix_toks_ok as F. rewrite forallb_forall in F.
   specialize (F t (all_tokens_in t)). unfold suffix_tok_ok in F. rewrite Hs in F.
   change (negb true || ?x) with x in F.
   destruct (get_definition t) as [d sec] eqn:Eg.
+  apply andb_true_iff in F. destruct F as [F F7].
   apply andb_true_iff in F. destruct F as [F F6].
   apply andb_true_iff in F. destruct F as [F F5].
   apply andb_true_iff in F. destruct F as [F F4].
@@ -247,7 +249,8 @@ Proof.
   apply andb_true_iff in F. destruct F as [F1 F2].
   apply definition_eqb_eq in F1. subst d. apply secondary_eqb_eq in F2. subst sec.
   split; [reflexivity|]. split; [apply negb_true_iff; exact F3|]. split; [apply negb_true_iff; exact F4|].
-  split; [exact F6|]. apply op_def_facts. exact F5.
+  split; [exact F6|]. destruct (op_def_facts _ _ F5) as (my & p & OF). exists my, p. split; [exact OF|].
+  rewrite (of_rank _ _ _ _ OF) in F7. apply N.ltb_lt. exact F7.
 Qed.
 
 Definition prefix_tok_ok (t : token_type) : bool :=
@@ -255,7 +258,7 @@ Definition prefix_tok_ok (t : token_type) : bool :=
   (let '(d, sec) := get_definition t in
    definition_eqb d (ref_def t) && secondary_eqb sec S_UnaryPrefix &&
    negb (definition_eqb d D_Drop) && negb (definition_eqb d D_Identifier) && frameable d &&
-   match ref_rank d with Some p => N.ltb p INF | None => false end).
+   match ref_rank d with Some p => N.ltb p ROUND_LIMIT | None => false end).
 
 Lemma prefix_toks_ok : forallb prefix_tok_ok all_token_type = true.
 Proof. vm_compute. reflexivity. Qed.
@@ -263,7 +266,7 @@ Proof. vm_compute. reflexivity. Qed.
 Lemma prefix_tok_facts t : is_prefix_tok t = true ->
   get_definition t = (ref_def t, S_UnaryPrefix) /\
   definition_eqb (ref_def t) D_Drop = false /\ definition_eqb (ref_def t) D_Identifier = false /\
-  frameable (ref_def t) = true /\ exists p, ref_rank (ref_def t) = Some p /\ (p < INF)%N.
+  frameable (ref_def t) = true /\ exists p, ref_rank (ref_def t) = Some p /\ (p < ROUND_LIMIT)%N.
 Proof.
   intros Hs. pose proof prefix_toks_ok as F. rewrite forallb_forall in F.
   specialize (F t (all_tokens_in t)). unfold prefix_tok_ok in F. rewrite Hs in F.
@@ -335,3 +338,54 @@ Proof.
   intros Hll Hln Hcfl Hv Hs Hse Hg. unfold space_list_check. rewrite Hll, Hln, Hse. cbn [andb bind].
   rewrite Hcfl, Hv, Hs, Hg. reflexivity.
 Qed.
+
+(* ---- the expression separator `;` after a completed operand, not inside a round group
+   (top level or directly inside { }): a binary operator ---- *)
+Definition group_lookup (st : pstate) : res (definition * nat) :=
+  match current_group st with
+  | None => Ok (D_Drop, 0)
+  | Some g =>
+    match nth_error (group_stack st) g with
+    | None => impl_err
+    | Some (gidx, _) =>
+      match nth_error (nodes st) gidx with
+      | None => impl_err
+      | Some gn => Ok (n_def gn, gidx)
+      end
+    end
+  end.
+
+Lemma step_sep_unfold ntoks i st ug ing gix l ln :
+  under_group_of st = Ok ug -> next_last_left st = None -> adj_ok (nodes st) (last_left st) ->
+  forbidden (prev_sec st) S_Subexpression (check_for_list st) = false ->
+  separated st && forbidden_separated (prev_sig st) S_Subexpression (check_for_list st) = false ->
+  group_lookup st = Ok (ing, gix) -> definition_eqb ing D_Group = false ->
+  definition_eqb ing D_NestedExpression && Nat.eqb gix l = false ->
+  last_left st = Some l -> nth_error (nodes st) l = Some ln -> calm_def (n_def ln) = true ->
+  secondary_eqb (n_sec ln) S_Subexpression = false ->
+  step ntoks i TT_ExpressionSeparator st =
+    do r2 <- parse_token (length (nodes st)) D_ExpressionSeparator (Some l) (nodes st) ug false;
+    let '(ns2, parent, tl) := r2 in
+    Ok (mkState (ns2 ++ [mkNode D_ExpressionSeparator S_Subexpression parent tl
+                           (if Nat.leb ntoks (i + 1) then None else Some (length (nodes st) + 1)) (Some i)])
+                (Some (length (nodes st))) (Some (length (nodes st))) false (Some i) None
+                (group_stack st) (current_group st) S_Subexpression S_Subexpression false (se_prev st)).
+Proof.
+  intros Hug Hnll Hadj Hforb Hsep Hgl Hng Hstart Hll Hln Hcalm Hsec.
+  destruct (calm_facts _ Hcalm) as (C1 & C2 & C3 & C4).
+  destruct st as [ns np ll cfl lt nll gs cg ps psig sep sep_prev]. unfold under_group_of in Hug. unfold group_lookup in Hgl.
+  fields_in_all. subst ll nll. unfold step. fields. rewrite Hug. cbn [bind].
+  rewrite (adj_simpl ns (Some l) ug ps psig Hadj). fields.
+  cbn [get_definition]. fields. rewrite Hforb. cbn [negb andb] in *. rewrite Hsep. fields.
+  rewrite Hgl. cbn [bind]. rewrite Hng. rewrite Hln, C2.
+  rewrite (upd_id ns l (fun _ => ln) ln Hln eq_refl). cbn [bind]. rewrite Hsec, Hstart. cbn [orb].
+  destruct (parse_token (length ns) D_ExpressionSeparator (Some l) ns ug false) as [[[ns2 parent] tl]| | |]; cbn [bind]; try reflexivity.
+  fields. cbn [definition_eqb definition_index N.eqb Pos.eqb]. rewrite app_last_match. reflexivity.
+Qed.
+
+(* finite facts about the separator *)
+Lemma sep_tok_is t : sep_tok t = true -> t = TT_ExpressionSeparator.
+Proof. destruct t; intros H; try discriminate H; reflexivity. Qed.
+
+Lemma sep_def_ok : op_def_ok D_ExpressionSeparator false = true /\ frameable D_ExpressionSeparator = true.
+Proof. vm_compute. split; reflexivity. Qed.
